@@ -30,7 +30,8 @@ Definition hist (o : opts OpsF) (s : astate OpsF) (step : nat) (l : list (float 
 def one_history(rep, rng, dev, hid):
     from tdgl.solver.solver import TDGLSolver
     adaptive = rng.random() < 0.8
-    dt_init = 10 ** rng.uniform(-4, -2.3)
+    # mostly ordinary first steps, sometimes tiny ones (the recorded |d|psi|^2| then sit below the 1e-10 floor)
+    dt_init = 10 ** rng.uniform(-4, -2.3) if rng.random() < 0.85 else 10 ** rng.uniform(-10, -6)
     # half of the histories get a generous dt_max so that the proposal 1/2 (dt + dt_init/delta) is NOT clipped and the
     # averaging term (which must use the step actually taken, after retries) is visible
     dt_max = dt_init * (10 ** rng.uniform(0, 1.7) if rng.random() < 0.5 else 10 ** rng.uniform(2.5, 4.5))
